@@ -335,6 +335,7 @@ class Walker:
     self.max_paths = max_paths
     self.loop_info = {}   # id(loop node) -> dict
     self.quiet = 0        # >0: do not record events (invariant trial runs)
+    self.track_attr = False
 
   # ---------------------------------------------------------------- helpers
   def sym(self, name):
@@ -440,6 +441,8 @@ class Walker:
     if isinstance(x, ast.Name) and x.id not in st.env:
       return self.global_ref(e)
     base = self.ev(e.value, st)
+    if self.track_attr:
+      self.emit("attr", e, st, base=base, attr=e.attr)
     return mk("attr", as_poly(base), e.attr)
 
   def ev_Tuple(self, e, st):
